@@ -623,10 +623,14 @@ def _load_from_disk(file_name):
 def _save_to_disk(file_name, obj, overwrite=False):
     if not overwrite and os.path.isfile(file_name):
         raise RuntimeError(f"{file_name} already exists")
-    if overwrite and os.path.isfile(file_name):
-        os.remove(file_name)
-    with open(file_name, "wb") as f:
+    # Write to a temporary file (whose name is never mistaken for a sample
+    # file) and rename it, such that a crash never leaves a truncated or missing
+    # `file_name` behind.
+    head, tail = os.path.split(file_name)
+    tmp = os.path.join(head, ".tmp_" + tail)
+    with open(tmp, "wb") as f:
         pickle.dump(obj, f, pickle.HIGHEST_PROTOCOL)
+    os.replace(tmp, file_name)
 
 
 def _field2hdf5(file_handle, obj, name):
